@@ -181,6 +181,46 @@ def c05_depth_probe(c):
             res["inconclusive"].append(f"depth probe {lane} {s} {d}: exit {rc}: {out} {err}")
     for (lane, s), d in survived.items():
         res["maxima"][f"deepest_nesting_survived:{lane}:{s}"] = d
+
+    # one hostile input per process: inputs that may end in an allocation failure (an abort, which no in-process monitor survives)
+    oneshots = [
+        ("HashSet<BigDecimal>", "02163165313030303030303030", "set of one decimal 1e100000000"),
+        ("HashMap<BigDecimal, u8>", "02002a31653932323333373230333638353437373538303707", "map keyed by 1e9223372036854775807"),
+        ("HashMap<BigDecimal, u8>", "02002a31653932323333373230333638353437373538303807", "map keyed by 1e9223372036854775808"),
+        ("BTreeSet<BigDecimal>", "02163165313030303030303030", "control: ordered set of the same decimal"),
+        ("HashSet<BigDecimal>", "0208312e3565313030", "control: hash set of 1.5e100"),
+    ]
+
+    def run1(job):
+        lane, (subject, hx, what) = job
+        crumb = os.path.join(c["outdir"], f"oneshot_{lane}_{abs(hash((subject, hx))) % 10**8}.crumb")
+        p = subprocess.run([c["lane_binary"](lane), "oneshot", "--set", f"subject={subject}", "--set", f"hex={hx}", "--crumb", crumb, "--lane", lane],
+                           cwd=H, env=env, capture_output=True, text=True, timeout=600)
+        return job, p.returncode, p.stdout.strip()[-400:], p.stderr.strip()[-400:]
+
+    with cf.ThreadPoolExecutor(max_workers=4) as ex:
+        outs1 = list(ex.map(run1, [(lane, o) for lane in ("dbg", "rel") for o in oneshots]))
+    for (lane, (subject, hx, what)), rc, out, err in outs1:
+        res["evaluations"] += 1
+        res["distinct"] += 1
+        n = len(hx) // 2
+        det = dict(check="C05", mode="decode", subject=subject, hex=hx, lane=lane, exit=rc, what=what, stdout=out[-300:], stderr=err[-300:],
+                   replay_cmd=f"harness/target/debug/dv oneshot --set 'subject={subject}' --set hex={hx}")
+        m = re.search(r"ONESHOT .* outcome=(\S+) largest_single_request=(\d+) total_requested=(\d+)", out)
+        if m:
+            outcome, single, total = m.group(1), int(m.group(2)), int(m.group(3))
+            if outcome.startswith("Panic"):
+                _viol(res, f"C05|own_process|{subject}|panic", det)
+            elif outcome.startswith("StepBudget"):
+                _viol(res, f"C05|own_process|{subject}|steps", det)
+            elif single > 64 * 1024 + 256 * n or total > 256 * 1024 + 1024 * n:
+                _viol(res, f"C05|own_process|{subject}|alloc", det)
+            else:
+                res["counters"]["own_process_probes_within_budget"] = res["counters"].get("own_process_probes_within_budget", 0) + 1
+        elif "memory allocation of" in err or rc in (-6, 134):
+            _viol(res, f"C05|own_process|{subject}|crash:allocation-failure", det)
+        else:
+            res["inconclusive"].append(f"own-process probe {lane} {subject} {hx}: exit {rc}: {out[-100:]} {err[-100:]}")
     res["samples"].append(dict(depth_probe="[0,v,1]*N ++ [0,v,0] decoded as DeepRec (struct { v: u8, next: Option<Box<DeepRec>> }) on an 8 MiB stack", depths=depths))
     c["lane_stats"]["depth-probe"] = dict(build_s=0, shards=len(jobs), scale=1.0)
     return [_result("depth-probe", 0, res, wall=time.time() - t0)]
